@@ -122,6 +122,20 @@ func c15StringRaw(b []byte) *core.Finding {
 	r := &env.Reader{Data: b}
 	sv, sn, serr := mq.VerifVbintReadFrom(r)
 	memOK, strOK := gerr == nil, serr == nil
+	if wok && !bytes.Equal(refEncode(wv), b[:wn]) {
+		// a non-minimal encoding (e.g. 80 00): the property does not say
+		// whether it is accepted, only that both decoders agree
+		if memOK != strOK {
+			return &core.Finding{Class: "nonminimal-disagree", Detail: fmt.Sprintf("non-minimal % x: in-memory accepted=%v (value %d), streaming accepted=%v (value %d)", b, memOK, gv, strOK, sv)}
+		}
+		if memOK && (gv != sv || gv != uint(wv)) {
+			return &core.Finding{Class: "value-disagree", Detail: fmt.Sprintf("% x: in-memory %d, streaming %d, reference %d", b, gv, sv, wv)}
+		}
+		if strOK && (int(sn) != wn || r.Off != wn) {
+			return &core.Finding{Class: "stream-advance", Detail: fmt.Sprintf("% x: streaming decoder consumed n=%d drew %d, encoding has %d bytes", b, sn, r.Off, wn)}
+		}
+		return nil
+	}
 	kind := ""
 	if len(b) > 0 && b[len(b)-1]&0x80 != 0 && len(b) <= 4 {
 		kind = "ends-on-continuation"
